@@ -73,6 +73,14 @@ void SoPlexBase<R>::_optimizeRational(volatile bool* interrupt)
                        _basisStatusCols.size());
    }
 
+   // the exact solver works on the unscaled real LP: remove a persistent scaling left by an earlier floating-point solve
+   if(_isRealLPScaled)
+   {
+      _solver.unscaleLPandReloadBasis();
+      _isRealLPScaled = false;
+      ++_unscaleCalls;
+   }
+
    // store objective, bounds, and sides of Real LP in case they will be modified during iterative refinement
    _storeLPReal();
 
